@@ -211,9 +211,12 @@ class RefSystem:
             kids = self.children(name)
             gp = self.parents[name][0]
             for c in kids:
-                new = [gp if p == name else p for p in self.parents[c]]
-                # two inputs collapsing onto one parent: one link remains
-                self.parents[c] = [p for i, p in enumerate(new) if p not in new[:i]]
+                if gp in self.parents[c]:
+                    # the new parent already is an input of this mux: one link
+                    # (the existing one, at its own priority) remains
+                    self.parents[c] = [p for p in self.parents[c] if p != name]
+                else:
+                    self.parents[c] = [gp if p == name else p for p in self.parents[c]]
             self._drop(name)
 
     def _drop(self, n):
